@@ -222,7 +222,14 @@ impl BlockData {
         }
 
         match self.last_slice {
-            None if is_last => self.mark_last_slice(slice_index),
+            None if is_last => {
+                // data already stored beyond the slice now declared last contradicts it
+                let beyond_last = |ind: &SliceIndex| *ind > slice_index;
+                if self.shreds.keys().any(beyond_last) || self.slices.keys().any(beyond_last) {
+                    return Err(AddShredError::Equivocation);
+                }
+                self.mark_last_slice(slice_index);
+            }
             None => {}
             Some(l) => {
                 let consistent = (slice_index < l && !is_last) || (slice_index == l && is_last);
